@@ -2,6 +2,7 @@
    Only statements; proofs are [exact <lemma>] into Circuit/Ident_facts.v. *)
 From Coq Require Import ZArith Bool List.
 From PV Require Import Base.Outcome Circuit.Tree Circuit.Printer Circuit.Printer_facts Circuit.Ident Circuit.Ident_facts.
+From PV Require Import gen.Classes_gen.
 Import ListNotations.
 
 (* running identifiers are exactly 0..N-1, in traversal order, one per listed element *)
@@ -26,6 +27,13 @@ Theorem C16_names_injective :
   name_of ei (S (count_sym (ie_sym ei) (firstn i es))) <> name_of ej (S (count_sym (ie_sym ej) (firstn j es))).
 Proof. exact names_injective. Qed.
 Print Assumptions C16_names_injective.
+
+(* the hypothesis on symbols holds for every built-in class (table regenerated from /repo on every run), so the theorem applies to
+   every circuit of built-in elements; user-defined symbols may contain underscores (the registry allows an upper-case letter followed by lower-case letters, digits and underscores), for
+   which display names can coincide — outside the statement, and checked on every observed element by the harness *)
+Theorem C16_builtin_symbols_have_no_underscore : forallb (fun r => nounder (r_sym r)) builtin_registry = true.
+Proof. vm_compute. reflexivity. Qed.
+Print Assumptions C16_builtin_symbols_have_no_underscore.
 
 (* [name_of] with that count IS the name the model assigns at that position *)
 Theorem C16_names_are_assigned :
